@@ -4,6 +4,6 @@ here=$(cd "$(dirname "$0")/.." && pwd)
 cd "$here"
 if [ $# -gt 0 ]; then list="$@"; else list=$(ls seeded); fi
 for id in $list; do
-  prop=$(echo $id | cut -c1-3)
+  prop=$(echo $id | sed "s/^R2_//" | cut -c1-3)
   python3 tools/mutate.py $id seeded/$id/patch.diff $prop --no-playback
 done
